@@ -12,14 +12,14 @@ PROPERTY = 'C14'
 LEVEL = 'exploration'
 RULE = ('Queries (lat, lon, h, date): lat uniform in [-90,90] plus 90-10**U(-9,-1) of either sign plus exact +-90 and 0; lon '
         'in [-180,180] incl. 0, +-180; h in [-1,850] km; date = 2015 + k/10, k in 0..150, with the epoch boundaries 2019.9 / '
-        '2020.0 / 2024.9 / 2025.0 / 2030.0 over-weighted. Each query is asked through WMM().magnetic_field(..., date=float) on a '
-        'fresh object and through the constructor. Oracle: own degree-12 Schmidt semi-normalised synthesis (explicit Legendre '
+        '2020.0 / 2024.9 / 2025.0 / 2030.0 over-weighted. Each query is asked through WMM().magnetic_field(..., date=float) on an '
+        'object that has already answered 0-3 other queries (other places and dates, usually from another coefficient file) and through the constructor. Oracle: own degree-12 Schmidt semi-normalised synthesis (explicit Legendre '
         'polynomials with exact rational coefficients, own COF parser, own geodetic->geocentric conversion), X,Y,Z within 1e-7 + '
         '2.8e5*min(1.5e-8, 2.2e-16/colatitude) nT, and the coefficient file / epoch used must be the one of the date\'s lustrum. '
         'Non-trivial: |lat| < 89.9, h != 0, date not an epoch start; distinct = case hash.')
 ASSUMPTIONS = ['the oracle reproduces the official WMM2020 test values to 0.05 nT (self-test at start-up)',
                'near the poles the package computes the geocentric latitude with arcsin(z/r): tolerance term 2.8e5*2.2e-16/colat nT']
-REQUIRED_LABELS = ['field:lat=pole', 'field:lat=near_pole', 'field:lat=equator', 'field:model=WMM2015', 'field:model=WMM2020',
+REQUIRED_LABELS = ['field:history_crosses_models', 'field:lat=pole', 'field:lat=near_pole', 'field:lat=equator', 'field:model=WMM2015', 'field:model=WMM2020',
                    'field:model=WMM2025', 'field:date=boundary']
 
 
@@ -42,7 +42,9 @@ def date_strategy():
 def _case():
     return st.fixed_dictionaries({'lat': lat_strategy(), 'lon': lon_strategy(),
                                   'h': st.one_of(gen.fl(-1.0, 850.0), st.sampled_from([0.0, -1.0, 850.0])),
-                                  'k': date_strategy()})
+                                  'k': date_strategy(),
+                                  # earlier queries on the same object (other dates, hence possibly other coefficient files)
+                                  'history': st.lists(date_strategy(), min_size=0, max_size=3)})
 
 
 def tolerance(colat):
@@ -80,6 +82,13 @@ def evaluate(case, ctx):
 
     ok, w = ctx.call('WMM()', lambda: WMM())
     if ok:
+        hist = [int(x) for x in case.get('history', [])]
+        if hist:
+            ctx.label('object_with_history')
+            if len({min(x, 149)//50 for x in hist + [k]}) > 1:
+                ctx.label('history_crosses_models')
+        for j, kj in enumerate(hist):
+            ctx.call('magnetic_field[history]', lambda: w.magnetic_field(-lat/2 + j, lon/3, 10.0*j, date=2015 + kj/10))
         ok, _ = ctx.call(f'magnetic_field|{cls}', lambda: w.magnetic_field(lat, lon, h, date=date))
         if ok:
             judge('magnetic_field', w)
